@@ -54,6 +54,18 @@ class World(object):
     def snaps(self):
         return [treesnap.snapshot(t) for t in self.trees]
 
+    def eq_matrix(self):
+        out = []
+        for a in self.trees:
+            row = []
+            for b in self.trees:
+                try:
+                    row.append(bool(a == b))
+                except Exception:
+                    row.append(None)
+            out.append(row)
+        return out
+
     def case(self):
         return {'seed': self.seed, 'ops': self.log[-12:],
                 'n_ops': len(self.log)}
@@ -62,6 +74,7 @@ class World(object):
         """Run one operation under the all-trees snapshot monitor."""
         before = self.snaps()
         n_before = len(self.trees)
+        eq_before = self.eq_matrix() if not mutator else None
         self.log.append([name, target])
         try:
             fn()
@@ -70,6 +83,17 @@ class World(object):
             # isolation oracle still applies
             self.obs.count('op_raised:%s' % type(e).__name__)
         after = self.snaps()
+        if eq_before is not None:
+            # observers must not change how trees compare with each other
+            # (state that is invisible in the public attributes still shows
+            # in ==)
+            eq_after = self.eq_matrix()
+            self.obs.count('equality_matrices_compared')
+            if eq_after != eq_before:
+                self.obs.violation('observer_changed_equality:%s' % name,
+                                   self.case(), {'target': target})
+                self.failed = True
+                return
         self.obs.count('op:%s' % name)
         self.obs.count('snapshots_compared', n_before)
         for i in range(n_before):
@@ -123,7 +147,15 @@ class World(object):
         self.step('add_file', i, lambda: c.add_file(**kw), True)
 
     def op_parse(self):
-        if self.bytes_pool and self.rng.random() < 0.5:
+        if self.rng.random() < 0.12:
+            # a foreign producer's file with empty-object metadata (length=3)
+            # at every level - the library's own writer never emits these
+            data = (b'#diffx: encoding=utf-8, version=1.0\n'
+                    b'#.meta: format=json, length=3\n{}\n'
+                    b'#.change:\n#..meta: format=json, length=3\n{}\n'
+                    b'#..file:\n#...meta: format=json, length=3\n{}\n'
+                    b'#..file:\n#...meta: length=3\n{}\n')
+        elif self.bytes_pool and self.rng.random() < 0.5:
             data = self.rng.choice(self.bytes_pool)
         else:
             data, lay = serialize(recipe.gen_doc(self.rng, 2, 2))
@@ -151,6 +183,24 @@ class World(object):
                                   'fresh': repr(fresh_exc)[:200]})
                 self.failed = True
             elif shared_exc is None:
+                # ref has not been looked at by anything yet: observing t
+                # must not make it differ from its untouched twin
+                eq0 = (t == ref)
+                try:
+                    repr(t)
+                    t.to_bytes()
+                    for s in t:
+                        repr(s)
+                except Exception:
+                    pass
+                eq1 = (t == ref)
+                self.obs.count('untouched_twin_comparisons')
+                if not eq0 or not eq1:
+                    self.obs.violation(
+                        'observed_tree_differs_from_untouched_twin:%s'
+                        % ('before_observers' if not eq0
+                           else 'after_observers'), self.case())
+                    self.failed = True
                 if not treesnap.equal(treesnap.snapshot(t),
                                       treesnap.snapshot(ref)):
                     d = treesnap.first_diff(treesnap.snapshot(ref),
